@@ -407,7 +407,8 @@ RoProgressing(s, old) ==
          IF RolledBack(s, old) /\ WlCanaryRev(s) # old.canaryRev
          THEN [s EXCEPT !.ro.canaryRev = WlCanaryRev(s), !.ro.reason = "Cancelling"]
          ELSE IF s.user.paused THEN [s EXCEPT !.ro.reason = "Paused"]
-         ELSE IF old.canaryRev # 0 /\ WlCanaryRev(s) # old.canaryRev /\ ~RolledBack(s, old) THEN RoContinuous(s)
+         ELSE IF old.canaryRev # 0 /\ WlCanaryRev(s) # old.canaryRev /\ ~RolledBack(s, old)
+              THEN (IF IsBlueGreen(s) THEN s ELSE RoContinuous(s))      \* blue-green refuses: "please rollback first" (nothing is written)
          ELSE IF old.hashSet /\ ~old.hashOk THEN RoPlanChanged(s)
          ELSE IF s.ro.state = "Completed" THEN [s EXCEPT !.ro.reason = "Finalising"]
          ELSE RunCanary(s)
